@@ -255,7 +255,7 @@ def _run_klatt(case, d):
                 if g != w:
                     probs.append("after modification tier %s is %r, expected %r" % ("/".join(g[0]), g[3][:2], w[3][:2]))
                     break
-    fn1, fn2 = os.path.join(d, "out1.KlattGrid"), os.path.join(d, "out2.KlattGrid")
+    fn1, fn2 = core.fname(os.path.join(d, "out1.KlattGrid")), core.fname(os.path.join(d, "out2.KlattGrid"))
     kg.save(fn1)
     kg2 = klattgrid.openKlattgrid(fn1)
     d2 = _dump_kg(kg2)
@@ -331,7 +331,7 @@ def run(case):
             pts = [tuple(p) for p in case["pts"]]
             cls = CLASSES[kind]
             po = (PointObject1D if kind == "point" else PointObject2D)(pts, cls, case["mn"], case["mx"])
-            fn = os.path.join(d, "a.txt")
+            fn = core.fname(os.path.join(d, "a.txt"))
             po.save(fn)
             with open(fn, encoding="utf-8", newline="") as fh:
                 text = fh.read()
@@ -353,7 +353,7 @@ def run(case):
                 out["open_err"] = core.err_kind(e)
                 probs.append("opening the saved %s raised %s: %s" % (cls, type(e).__name__, e))
             # Praat's long text form of the same data
-            fl = os.path.join(d, "long.txt")
+            fl = core.fname(os.path.join(d, "long.txt"))
             with open(fl, "w", encoding="utf-8") as fh:
                 fh.write(_write_long_po(kind, po.minTime, po.maxTime, pts))
             try:
